@@ -451,6 +451,44 @@ Proof.
   unfold make_valve. destruct ((0 <? up) && (0 <? down)); cbn [negb bind]; [|eauto].
   destruct (authorise_total now s u 0) as [e F]. rewrite F. cbn [bind]. eauto. Qed.
 
+Lemma connect_use_total now s u rx tx : exists q, connect_use true true now s u rx tx = Ok q.
+Proof.
+  unfold connect_use. destruct (connect_guarded_total now s u) as [c E]. rewrite E. cbn [bind].
+  destruct c as [e|e|up down]; [eauto| |].
+  - destruct (upload_total now [mkUpd (pad16 u) 0 0] s) as [q F]. rewrite F. cbn [bind]. eauto.
+  - destruct (upload_total now [mkUpd (pad16 u) rx tx] s) as [q1 F1]. rewrite F1. cbn [bind].
+    destruct (upload_total now [mkUpd (pad16 u) 0 0] (fst q1)) as [q2 F2]. rewrite F2. cbn [bind]. eauto.
+Qed.
+
+Lemma no_panic_connect now s :
+  (forall u, exists c, connect true true now s u = Ok c) /\
+  (forall u rx tx, exists q, connect_use true true now s u rx tx = Ok q).
+Proof. split; [intros u; apply connect_guarded_total | intros u rx tx; apply connect_use_total]. Qed.
+
+Lemma credit_checks_not_badrate a b c d : credit_checks a b c d <> Some ErrBadRate.
+Proof. unfold credit_checks. destruct (a <=? 0); [discriminate|]. destruct (b <=? 0); [discriminate|].
+  destruct (c <? d); discriminate. Qed.
+Lemma a_auth_not_badrate now m u : a_auth now m u <> AuthErr ErrBadRate.
+Proof. unfold a_auth. destruct (bucket u m) as [v|]; [|discriminate].
+  destruct (credit_checks _ _ _ _) as [e|] eqn:E; [|discriminate].
+  intros H. inversion H; subst. revert E. apply credit_checks_not_badrate. Qed.
+
+(* a refused record is refused for its rate only when it would otherwise have been authenticated *)
+Lemma connect_badrate_iff now s u :
+  connect true true now s u = Ok (CnAuthErr ErrBadRate) <->
+  exists up down, authenticate true now s u = Ok (AuthOk up down) /\ (up <= 0 \/ down <= 0).
+Proof.
+  unfold connect. rewrite authenticate_fixed. cbn [bind andb].
+  destruct (a_auth now (abs_store s) u) as [up down|e] eqn:Ea.
+  - unfold make_valve. destruct ((0 <? up) && (0 <? down)) eqn:E; cbn [negb bind].
+    + destruct (authorise_total now s u 0) as [e F]. rewrite F. cbn [bind].
+      split; [destruct e; discriminate|]. intros (up' & down' & H & Hle). inversion H; subst. lia.
+    + split; [|reflexivity]. intros _. exists up, down. split; [reflexivity|lia].
+  - split.
+    + intros H. inversion H; subst. exfalso. revert Ea. apply a_auth_not_badrate.
+    + intros (up' & down' & H & _). discriminate.
+Qed.
+
 (* the guard changes nothing for records with positive rates *)
 Lemma connect_guard_agree now s u c : connect false true now s u = Ok c -> connect true true now s u = Ok c.
 Proof.
@@ -562,16 +600,19 @@ Definition wit_zero_rate : list op :=
 Definition wit_neg_rate : list op :=
   [OReq (RqPost (PUid wit_uid16) (BJson wit_uid16 (mkW (Some 5) (Some 10) (Some (-1)) (Some 1000) (Some 1000) (Some 100))))].
 
-Definition full_no_panic_on_connect : Prop :=
+(* the statement about the owner connecting, for either variant of GetUser *)
+Definition no_panic_on_connect (guard : bool) : Prop :=
   forall now ops u s os, Forall op_ok ops -> run true now [] ops = Ok (s, os) ->
-    connect false true now s u <> Panic.
+    connect guard true now s u <> Panic.
+Lemma no_panic_on_connect_now : no_panic_on_connect true.
+Proof. intros now ops u s os _ _. destruct (connect_guarded_total now s u) as [c E]. rewrite E. discriminate. Qed.
 
 Lemma wit_zero_rate_ok : Forall op_ok wit_zero_rate.
 Proof. repeat constructor; cbn; unfold in_i32, in_i64, two31, two63; lia. Qed.
 Lemma wit_neg_rate_ok : Forall op_ok wit_neg_rate.
 Proof. repeat constructor; cbn; unfold in_i32, in_i64, two31, two63; lia. Qed.
 
-Lemma makevalve_refuted : ~ full_no_panic_on_connect.
+Lemma makevalve_refuted : ~ no_panic_on_connect false.
 Proof. intros H.
   destruct (run true 50 [] wit_zero_rate) as [[s os]|] eqn:E; [|vm_compute in E; discriminate].
   apply (H 50 wit_zero_rate wit_uid16 s os wit_zero_rate_ok E).
